@@ -122,6 +122,13 @@ func (c *Catalog) tagsFromTagsDirective(d *directive.Directive) ([]*Tag, *jerr.J
 // interactions that use the directive, but a Tags directive of a URL can be
 // left unused when every method of the URL has its own one.
 func (c *Catalog) CheckTags(d *directive.Directive) *jerr.JApiError {
+	// Only the first Tags directive of a URL or of a method is looked up by tags(),
+	// a second one would be silently lost.
+	if d.Parent != nil {
+		if first := getChildrenTagsDirective(*d.Parent); first != nil && first != d {
+			return d.KeywordError(jerr.NotUniqueDirective)
+		}
+	}
 	_, je := c.tagsFromTagsDirective(d)
 	return je
 }
